@@ -501,7 +501,14 @@ type jsonInfo struct {
 // Otherwise, the information is obtained from the tag.
 func fieldJSONInfo(f reflect.StructField) jsonInfo {
 	if !f.IsExported() {
-		return jsonInfo{omit: true}
+		// encoding/json uses an embedded field of unexported struct type.
+		t := f.Type
+		if t.Kind() == reflect.Pointer {
+			t = t.Elem()
+		}
+		if !f.Anonymous || t.Kind() != reflect.Struct {
+			return jsonInfo{omit: true}
+		}
 	}
 	info := jsonInfo{name: f.Name}
 	if tag, ok := f.Tag.Lookup("json"); ok {
